@@ -919,7 +919,11 @@ func wireReplay(w *wireWitness) {
 	for i := range acc {
 		acc[i] = account{w.User, w.Pass, "replay"}
 	}
-	srv, err := startServer(methods, acc, 0)
+	slot := 0
+	if strings.HasPrefix(w.Conv, "client-reconnect-") {
+		slot = udpSlotBase
+	}
+	srv, err := startServer(methods, acc, slot)
 	if err != nil {
 		run.Fatal("cannot start server: %v", err)
 	}
@@ -927,6 +931,8 @@ func wireReplay(w *wireWitness) {
 	r := run.Rand("replay", 0)
 	for i := 0; i < 8; i++ {
 		switch {
+		case strings.HasPrefix(w.Conv, "client-reconnect-"):
+			clientReconnectRun(srv, w.Acct, strings.TrimPrefix(w.Conv, "client-reconnect-"), r)
 		case strings.HasPrefix(w.Conv, "client"):
 			clientRun(srv, w.Acct, w.Right, r)
 		default:
@@ -990,6 +996,15 @@ func main() {
 		}
 		servers = append(servers, s)
 	}
+	// the same method lists once more, with UDP: clients that reconnect (redirect, UDP fallback)
+	var udpServers []*wireServer
+	for i, l := range all {
+		s, err := startServer(l, accounts, udpSlotBase+i)
+		if err != nil {
+			run.Fatal("cannot start a UDP server on loopback: %v", err)
+		}
+		udpServers = append(udpServers, s)
+	}
 	type job struct {
 		srv    *wireServer
 		sch    auth.VerifyMethod
@@ -1013,6 +1028,9 @@ func main() {
 			}
 			jobs = append(jobs, job{srv: s, client: 2})
 		}
+		for _, s := range udpServers {
+			jobs = append(jobs, job{srv: s, client: 3}, job{srv: s, client: 3}, job{srv: s, client: 4})
+		}
 	}
 	for i := range jobs {
 		jobs[i].n = i
@@ -1029,13 +1047,17 @@ func main() {
 			conversation(r, j.srv, j.sch, j.method, acct, j.conv)
 		case 1:
 			clientRun(j.srv, acct, true, r)
+		case 3:
+			clientReconnectRun(j.srv, acct, "redirect", r)
+		case 4:
+			clientReconnectRun(j.srv, acct, "udp-fallback", r)
 		default:
 			clientRun(j.srv, acct, false, r)
 		}
 	}, func(i int, v any, stack string) {
 		run.Violation("wire/panic/"+vlib.PanicSite(stack), fmt.Sprintf("panic: %v", v), wireWitness{Kind: "wire", Trace: []string{stack}})
 	})
-	for _, s := range servers {
+	for _, s := range append(servers, udpServers...) {
 		s.close()
 	}
 
